@@ -111,6 +111,11 @@ func (ac *accessCollector) classifyAddrUses(addr ssa.Value, fr fieldRef, elem bo
 				ac.add(fr, 'W', x, elem) // address escapes
 			}
 		case *ssa.FieldAddr:
+			// a field of an inner struct whose type is tracked itself (state regrouped into an unexported struct)
+			// is accounted under that type, not as an access of the outer field
+			if in2, ok := asFieldAddr(x); ok && ac.tracked != nil && ac.tracked(in2.SName) && in2.SName != fr.SName {
+				continue
+			}
 			ac.classifyAddrUses(x, fr, elem, seen)
 		case *ssa.IndexAddr:
 			ac.classifyAddrUses(x, fr, true, seen)
